@@ -33,6 +33,7 @@ type EsSpec struct {
 	AscChange      bool // AAC: a second sequence header with another channel configuration / object type mid-stream
 	TinyAudio      bool // Opus / G.711: some frames are a single byte (Opus DTX); they carry no tag and are matched by order
 	LonePS         bool // some non-key frames are preceded by a PPS or an SPS on its own (parameter-set update sent separately)
+	NalLikeAudio   bool // Opus / G.711: frames begin with a byte that reads as an IDR / SPS / PPS NAL header (audio samples are arbitrary bytes)
 }
 
 type EsFrame struct {
@@ -257,6 +258,10 @@ func BuildEs(r *rand.Rand, inc int, sp EsSpec) *EsStream {
 					es.AscChangeFrame = idx
 				}
 				f.Audio = append(Tag(inc, idx*8), nalFill(r, size-12)...)
+				if sp.NalLikeAudio && sp.ACodec != "aac" {
+					lead := []byte{0x65, 0x67, 0x68, 0x25, 0x27, 0x45, 0x26, 0x28, 0x40, 0x42, 0x44}[idx%11]
+					f.Audio = append([]byte{lead}, f.Audio...)
+				}
 				if sp.TinyAudio && sp.ACodec != "aac" && len(es.Frames) > 20 && r.Intn(6) == 0 {
 					f.Audio = []byte{byte(1 + idx%250)}
 				}
